@@ -26,6 +26,11 @@ def run(item):
         t = SlidingWindowTransformer(window_width=x["width"], window_stride=x["stride"], window_sample=sample, kernels=kernels,
                                      pad_width=x["pad"], pad_value=x["pv"])
         try:
+            if fmt == "array" and x["L"] % 2 == 0:      # this object has a past
+                past = [np.arange(x["width"] + 3, dtype=np.float64)] if x.get("D", 1) == 1 else None
+                if past is not None:
+                    t.fit(past)
+                    t.transform(past)
             r = t.fit(X)
             if r is not t:
                 fails.append({"what": "fit does not return self"})
